@@ -142,7 +142,12 @@ func runContracts(eng *Engine, prop, fnFilter, work string, timeout time.Duratio
 			continue
 		}
 		if fc.Trusted != "" {
-			if _, ok := eng.fnByKey[k]; !ok && !strings.HasPrefix(fc.Trusted, "external") {
+			if strings.HasPrefix(fc.Key, "ext:") {
+				if eng.extByShort(strings.TrimPrefix(fc.Key, "ext:")) == nil {
+					fr.Error = "assumed contract names a dependency function that does not exist"
+					run.Undecided++
+				}
+			} else if _, ok := eng.fnByKey[k]; !ok && !strings.HasPrefix(fc.Trusted, "external") {
 				fr.Error = "trusted contract target not found"
 				run.Undecided++
 			}
@@ -220,6 +225,9 @@ func runContracts(eng *Engine, prop, fnFilter, work string, timeout time.Duratio
 			switch {
 			case j.o.Cover && r.verdict == "unsat":
 				res.Verdict = "vacuous"
+				if strings.Contains(j.o.Name, "#cover:return") || strings.Contains(j.o.Name, "#cover:after.") {
+					res.Verdict = "unreachable" // dead under the precondition: reported, not a failure
+				}
 			case j.o.Cover:
 				res.Verdict = "covered"
 			case r.verdict == "unsat":
@@ -273,7 +281,7 @@ func printRun(run *Run, verbose bool) {
 		}
 	}
 	for _, o := range run.Obls {
-		if verbose || (o.Verdict != "discharged" && o.Verdict != "covered") {
+		if verbose || (o.Verdict != "discharged" && o.Verdict != "covered" && o.Verdict != "unreachable") {
 			fmt.Printf("OBL %-15s %s [%s %.2fs %dB] %s\n", o.Verdict, o.Name, o.Solver, o.Secs, o.Bytes, o.Desc)
 			if o.Verdict == "failed" {
 				keys := make([]string, 0, len(o.Model))
